@@ -338,6 +338,267 @@ fn curve_checks(args: &Args, st: &mut Stats) {
     }
 }
 
+/// utils::cubic_polynomial_roots (the root finder behind the line x cubic queries): every reported
+/// root is a root, and well-separated real roots are all reported
+fn root_checks(args: &Args, st: &mut Stats) {
+    use lyon_geom::utils::cubic_polynomial_roots;
+    let mut rng = Rng::new(args.seed ^ 0x1274);
+    let n = if args.thorough() { 40000 } else { 5000 };
+    for it in 0..n {
+        let k = *rng.pick(&[1.0f64, -1.0, 2.0, -3.0, 0.5, 10.0]);
+        let r = |rng: &mut Rng| rng.range(-32, 32) as f64 / 8.0;
+        let (coef, expect): ([f64; 4], Vec<f64>) = match it % 5 {
+            0 | 1 => {
+                // three distinct real roots, at least 1/4 apart
+                let mut rs = [r(&mut rng), r(&mut rng), r(&mut rng)];
+                rs.sort_by(|a, b| a.partial_cmp(b).unwrap());
+                if rs[1] - rs[0] < 0.25 || rs[2] - rs[1] < 0.25 {
+                    continue;
+                }
+                ([k, -k * (rs[0] + rs[1] + rs[2]), k * (rs[0] * rs[1] + rs[0] * rs[2] + rs[1] * rs[2]), -k * rs[0] * rs[1] * rs[2]], rs.to_vec())
+            }
+            2 => {
+                // one real root and a complex pair: (x - r0)(x^2 + p x + q), p^2 < 4 q
+                let r0 = r(&mut rng);
+                let p = r(&mut rng);
+                let q = p * p / 4.0 + 0.25 + rng.below(16) as f64 / 4.0;
+                ([k, k * (p - r0), k * (q - p * r0), -k * q * r0], vec![r0])
+            }
+            3 => {
+                // quadratic (a = 0) with two distinct roots
+                let (r0, r1) = (r(&mut rng), r(&mut rng));
+                if (r0 - r1).abs() < 0.25 {
+                    continue;
+                }
+                ([0.0, k, -k * (r0 + r1), k * r0 * r1], vec![r0.min(r1), r0.max(r1)])
+            }
+            _ => {
+                // linear
+                let r0 = r(&mut rng);
+                ([0.0, 0.0, k, -k * r0], vec![r0])
+            }
+        };
+        st.inc("evaluations");
+        st.inc("polynomial_root_cases");
+        let label = format!("{:?} (roots {:?})", coef, expect);
+        st.note_case(&label, true);
+        match catch(|| cubic_polynomial_roots(coef[0], coef[1], coef[2], coef[3])) {
+            None => st.fail(jobj(&[("what", jstr("cubic_polynomial_roots panicked")), ("input", jstr(&label))])),
+            Some(got) => {
+                let eval = |x: f64| ((coef[0] * x + coef[1]) * x + coef[2]) * x + coef[3];
+                let scale = coef.iter().fold(0.0f64, |m, c| m.max(c.abs())) * 100.0;
+                for x in got.iter() {
+                    if !x.is_finite() || eval(*x).abs() > 1e-6 * scale {
+                        st.fail(jobj(&[("what", jstr("cubic_polynomial_roots reports a value that is not a root")), ("input", jstr(&format!("{} -> {:?}", label, got)))]));
+                        break;
+                    }
+                }
+                for e in &expect {
+                    if !got.iter().any(|x| (x - e).abs() < 1e-6) {
+                        st.fail(jobj(&[("what", jstr("cubic_polynomial_roots misses a well-separated real root")), ("input", jstr(&format!("{} -> {:?}", label, got)))]));
+                        break;
+                    }
+                }
+            }
+        }
+    }
+}
+
+/// the rest of the segment / line query family on integer lattices, against exact integer oracles:
+/// axis-aligned line intersections, intersects_line, overlaps_line, overlaps_segment, contains_segment,
+/// Line::intersects_box
+fn line_family_checks(args: &Args, st: &mut Stats) {
+    use lyon_geom::Box2D;
+    let mut rng = Rng::new(args.seed ^ 0x1273);
+    let n = if args.thorough() { 60000 } else { 8000 };
+    let pt = |p: (i64, i64)| point(p.0 as f64, p.1 as f64);
+    for it in 0..n {
+        let m = if it % 2 == 0 { 4 } else { 30 };
+        let mut g = |r: &mut Rng| (r.range(-m, m), r.range(-m, m));
+        let (a, b) = (g(&mut rng), g(&mut rng));
+        if a == b {
+            continue;
+        }
+        let seg = LineSegment { from: pt(a), to: pt(b) };
+        st.inc("evaluations");
+        st.inc("line_family_cases");
+        // axis-aligned lines
+        let k = rng.range(-m - 1, m + 1);
+        for horizontal in [true, false] {
+            let (f, t) = if horizontal { (a.1, b.1) } else { (a.0, b.0) };
+            let expect = f != t && ((f <= k && k <= t) || (t <= k && k <= f));
+            let label = format!("{:?} {} = {}", seg, if horizontal { "y" } else { "x" }, k);
+            st.note_case(&label, true);
+            let got = catch(|| if horizontal { (seg.horizontal_line_intersection_t(k as f64), seg.horizontal_line_intersection(k as f64)) } else { (seg.vertical_line_intersection_t(k as f64), seg.vertical_line_intersection(k as f64)) });
+            match got {
+                None => st.fail(jobj(&[("what", jstr("axis-aligned line intersection panicked")), ("input", jstr(&label))])),
+                Some((tt, pp)) => {
+                    if tt.is_some() != expect || pp.is_some() != expect {
+                        st.fail(jobj(&[("what", jstr("axis-aligned line intersection reported exactly when the line does not meet the segment (or missed)")), ("input", jstr(&format!("{} -> {:?}", label, tt)))]));
+                    } else if let (Some(t), Some(p)) = (tt, pp) {
+                        let q = seg.sample(t);
+                        let c = if horizontal { q.y } else { q.x };
+                        let cp = if horizontal { p.y } else { p.x };
+                        if !(0.0..=1.0).contains(&t) || (c - k as f64).abs() > 1e-9 || (cp - k as f64).abs() > 1e-9 {
+                            st.fail(jobj(&[("what", jstr("axis-aligned line intersection parameter does not locate the crossing")), ("input", jstr(&format!("{} -> t {} point {:?}", label, t, p)))]));
+                        }
+                    }
+                }
+            }
+        }
+        // a second segment / line, biased towards collinear configurations
+        let (mut c, mut d) = (g(&mut rng), g(&mut rng));
+        if rng.chance(1, 2) {
+            let (k1, k2) = (rng.range(-2, 4), rng.range(-2, 4));
+            let (dx, dy) = (b.0 - a.0, b.1 - a.1);
+            // integer points on the line through a and b (steps of half the direction when it is even)
+            let (sx, sy, den) = if dx % 2 == 0 && dy % 2 == 0 { (dx / 2, dy / 2, 1) } else { (dx, dy, 1) };
+            let _ = den;
+            c = (a.0 + sx * k1, a.1 + sy * k1);
+            d = (a.0 + sx * k2, a.1 + sy * k2);
+        }
+        if c == d {
+            continue;
+        }
+        let other = LineSegment { from: pt(c), to: pt(d) };
+        let line = Line { point: pt(c), vector: lyon_geom::vector((d.0 - c.0) as f64, (d.1 - c.1) as f64) };
+        let collinear = orient(a, b, c) == 0 && orient(a, b, d) == 0;
+        let label = format!("{:?} vs {:?}", seg, other);
+        let got = catch(|| (seg.intersects_line(&line), seg.line_intersection_t(&line).is_some(), seg.overlaps_line(&line), seg.overlaps_segment(&other), seg.contains_segment(&other)));
+        match got {
+            None => st.fail(jobj(&[("what", jstr("segment / line query panicked")), ("input", jstr(&label))])),
+            Some((il, lit, ol, os, cs)) => {
+                if il != lit {
+                    st.fail(jobj(&[("what", jstr("intersects_line disagrees with line_intersection_t")), ("input", jstr(&label))]));
+                }
+                if ol != collinear {
+                    st.fail(jobj(&[("what", jstr("overlaps_line is not collinearity of the segment with the line")), ("input", jstr(&label))]));
+                }
+                // projections on the segment's direction: self spans [0, L], other spans [lo, hi]
+                let (vx, vy) = (b.0 - a.0, b.1 - a.1);
+                let l = vx * vx + vy * vy;
+                let pc = vx * (c.0 - a.0) + vy * (c.1 - a.1);
+                let pd = vx * (d.0 - a.0) + vy * (d.1 - a.1);
+                let (lo, hi) = (pc.min(pd), pc.max(pd));
+                let share_more_than_a_point = collinear && lo.max(0) < hi.min(l);
+                if os != share_more_than_a_point {
+                    st.fail(jobj(&[("what", jstr("overlaps_segment is not 'collinear and sharing more than a point'")), ("input", jstr(&format!("{} -> {}", label, os)))]));
+                }
+                let contained = collinear && lo >= 0 && hi <= l;
+                if cs != contained {
+                    st.fail(jobj(&[("what", jstr("contains_segment is not 'collinear and inside'")), ("input", jstr(&format!("{} -> {}", label, cs)))]));
+                }
+            }
+        }
+        // Line x box: the line meets the closed box iff its corners are not all strictly on one side
+        let (p, q) = (g(&mut rng), g(&mut rng));
+        let (x0, x1, y0, y1) = (p.0.min(q.0), p.0.max(q.0), p.1.min(q.1), p.1.max(q.1));
+        let bx = Box2D { min: point(x0 as f64, y0 as f64), max: point(x1 as f64, y1 as f64) };
+        let sides: Vec<i64> = [(x0, y0), (x1, y0), (x0, y1), (x1, y1)].iter().map(|k| orient(c, d, *k)).collect();
+        let meets = sides.iter().any(|s| *s == 0) || (sides.iter().any(|s| *s > 0) && sides.iter().any(|s| *s < 0));
+        let touches_only = !(sides.iter().any(|s| *s > 0) && sides.iter().any(|s| *s < 0));
+        let label = format!("{:?} box {:?}", line, bx);
+        match catch(|| line.intersects_box(&bx)) {
+            None => st.fail(jobj(&[("what", jstr("Line::intersects_box panicked")), ("input", jstr(&label))])),
+            Some(got) => {
+                if got && !meets {
+                    st.fail(jobj(&[("what", jstr("Line::intersects_box reports a box that lies strictly on one side of the line")), ("input", jstr(&label))]));
+                }
+                if !got && meets && !touches_only {
+                    st.fail(jobj(&[("what", jstr("Line::intersects_box misses a box with corners strictly on both sides of the line")), ("input", jstr(&label))]));
+                }
+            }
+        }
+    }
+}
+
+/// Triangle::contains_point and Triangle::intersects_line_segment on integer lattices, against an
+/// exact integer oracle (boundary positions, where rounding of the barycentric sum decides, are
+/// left out of the containment oracle; for the segment test both directions are exact)
+fn triangle_checks(args: &Args, st: &mut Stats) {
+    use lyon_geom::Triangle;
+    let mut rng = Rng::new(args.seed ^ 0x1272);
+    let n = if args.thorough() { 60000 } else { 8000 };
+    let pt = |p: (i64, i64)| point(p.0 as f64, p.1 as f64);
+    for it in 0..n {
+        let m = if it % 2 == 0 { 5 } else { 40 };
+        let mut g = |r: &mut Rng| (r.range(-m, m), r.range(-m, m));
+        let (a, b, c) = (g(&mut rng), g(&mut rng), g(&mut rng));
+        if orient(a, b, c) == 0 {
+            continue;
+        }
+        let tri = Triangle { a: pt(a), b: pt(b), c: pt(c) };
+        st.inc("evaluations");
+        st.inc("triangle_cases");
+        let p = g(&mut rng);
+        let (o1, o2, o3) = (orient(a, b, p), orient(b, c, p), orient(c, a, p));
+        let inside = o1 != 0 && o1 == o2 && o2 == o3;
+        let outside = (o1 != 0 && o2 != 0 && o1 != o2) || (o2 != 0 && o3 != 0 && o2 != o3) || (o1 != 0 && o3 != 0 && o1 != o3);
+        let label = format!("{:?} point {:?}", tri, p);
+        st.note_case(&label, true);
+        match catch(|| tri.contains_point(pt(p))) {
+            None => st.fail(jobj(&[("what", jstr("Triangle::contains_point panicked")), ("input", jstr(&label))])),
+            Some(got) => {
+                if inside && !got {
+                    st.fail(jobj(&[("what", jstr("Triangle::contains_point misses a point strictly inside the triangle")), ("input", jstr(&label))]));
+                }
+                if outside && got {
+                    st.fail(jobj(&[("what", jstr("Triangle::contains_point accepts a point strictly outside the triangle")), ("input", jstr(&label))]));
+                }
+            }
+        }
+        // segment test: by definition an edge crossing (C12's segment predicate) or the start point inside
+        let (q, r2) = (g(&mut rng), g(&mut rng));
+        let seg = LineSegment { from: pt(q), to: pt(r2) };
+        let crosses = oracle(a, b, q, r2) || oracle(b, c, q, r2) || oracle(a, c, q, r2);
+        let (s1, s2, s3) = (orient(a, b, q), orient(b, c, q), orient(c, a, q));
+        let q_inside = s1 != 0 && s1 == s2 && s2 == s3;
+        let q_boundary = !q_inside && !((s1 != 0 && s2 != 0 && s1 != s2) || (s2 != 0 && s3 != 0 && s2 != s3) || (s1 != 0 && s3 != 0 && s1 != s3));
+        let label = format!("{:?} segment {:?}", tri, seg);
+        match catch(|| tri.intersects_line_segment(&seg)) {
+            None => st.fail(jobj(&[("what", jstr("Triangle::intersects_line_segment panicked")), ("input", jstr(&label))])),
+            Some(got) => {
+                if (crosses || q_inside) && !got {
+                    st.fail(jobj(&[("what", jstr("Triangle::intersects_line_segment misses a segment that crosses an edge or starts inside")), ("input", jstr(&label))]));
+                }
+                if !crosses && !q_inside && !q_boundary && got {
+                    st.fail(jobj(&[("what", jstr("Triangle::intersects_line_segment reports a segment that neither crosses an edge nor starts inside")), ("input", jstr(&label))]));
+                }
+            }
+        }
+        // triangle / triangle: sound (a reported intersection has an edge crossing, a contained vertex or equality)
+        let (d, e, f) = (g(&mut rng), g(&mut rng), g(&mut rng));
+        if orient(d, e, f) != 0 {
+            let other = Triangle { a: pt(d), b: pt(e), c: pt(f) };
+            let edges1 = [(a, b), (b, c), (a, c)];
+            let edges2 = [(d, e), (e, f), (d, f)];
+            let any_cross = edges1.iter().any(|x| edges2.iter().any(|y| oracle(x.0, x.1, y.0, y.1)));
+            let strictly_in = |t: [(i64, i64); 3], p: (i64, i64)| {
+                let (u1, u2, u3) = (orient(t[0], t[1], p), orient(t[1], t[2], p), orient(t[2], t[0], p));
+                u1 != 0 && u1 == u2 && u2 == u3
+            };
+            let on_boundary = |t: [(i64, i64); 3], p: (i64, i64)| {
+                let (u1, u2, u3) = (orient(t[0], t[1], p), orient(t[1], t[2], p), orient(t[2], t[0], p));
+                !(u1 != 0 && u1 == u2 && u2 == u3) && !((u1 != 0 && u2 != 0 && u1 != u2) || (u2 != 0 && u3 != 0 && u2 != u3) || (u1 != 0 && u3 != 0 && u1 != u3))
+            };
+            let expect = any_cross || strictly_in([d, e, f], a) || strictly_in([a, b, c], d) || tri == other;
+            let fuzzy = on_boundary([d, e, f], a) || on_boundary([a, b, c], d);
+            let label = format!("{:?} x {:?}", tri, other);
+            match catch(|| tri.intersects(&other)) {
+                None => st.fail(jobj(&[("what", jstr("Triangle::intersects panicked")), ("input", jstr(&label))])),
+                Some(got) => {
+                    if expect && !got {
+                        st.fail(jobj(&[("what", jstr("Triangle::intersects misses triangles with crossing edges or a vertex strictly inside")), ("input", jstr(&label))]));
+                    }
+                    if !expect && !fuzzy && got {
+                        st.fail(jobj(&[("what", jstr("Triangle::intersects reports triangles without a crossing edge or a contained vertex")), ("input", jstr(&label))]));
+                    }
+                }
+            }
+        }
+    }
+}
+
 pub fn main(args: &Args) -> std::io::Result<()> {
     let mut st = Stats::default();
     let mut w = ShardWriter::new(&args.out, "c12_cases", args.shards, HEADER, "bad_cases");
@@ -377,6 +638,9 @@ pub fn main(args: &Args) -> std::io::Result<()> {
         id += 1;
     }
     curve_checks(args, &mut st);
+    triangle_checks(args, &mut st);
+    line_family_checks(args, &mut st);
+    root_checks(args, &mut st);
     w.finish()?;
     st.write(&args.out.join("c12_stats.json"))
 }
